@@ -14,25 +14,14 @@
        that (name,type,class) that is not itself in the datagram and is older than one
        second expires one second later: [c |-> now, ttl |-> 1];
      * purge at instant b removes exactly the entries with c + 1000*ttl <= b.             *)
-EXTENDS Integers, Sequences, FiniteSets
+EXTENDS CacheOps
 
 CONSTANTS Ids,          \* record identities of the vocabulary
           RRof(_),      \* identity -> (name,type,class) class id
           IsPtrId(_)    \* identity -> BOOLEAN (type PTR; CNAME is not subject to the floor)
 
-None == [c |-> -1, ttl |-> -1]
-PtrMinTtl == 1125
 Eff(i, ttl) == IF IsPtrId(i) /\ ttl > 0 /\ ttl < PtrMinTtl THEN PtrMinTtl ELSE ttl
-
-ExpiresAt(e) == e.c + 1000 * e.ttl
-IsExpired(e, now) == ExpiresAt(e) <= now
 Present(ch) == {i \in Ids : ch[i] # None}
-
-Idx(items) == 1..Len(items)
-InDatagram(items) == {items[k].id : k \in Idx(items)}
-HasZero(items, i) == \E k \in Idx(items) : items[k].id = i /\ items[k].ttl = 0
-NonZero(items, i) == {k \in Idx(items) : items[k].id = i /\ items[k].ttl > 0}
-LastNZ(items, i) == items[CHOOSE k \in NonZero(items, i) : \A j \in NonZero(items, i) : j <= k].ttl
 FlushKeys(items) == {RRof(items[k].id) : k \in {j \in Idx(items) : items[j].fl}}
 
 (* State visible to listeners during the first notification: refreshed TTLs and flush marks
